@@ -33,7 +33,7 @@ func main() {
 		txsim.RunChains(ctx, "C07", chains)
 	}
 	r := hx.NewRand(ctx.Seed)
-	n := ctx.Scale(2500, 60000)
+	n := ctx.Scale(2500, 30000)
 	batch := 100
 	for done := 0; done < n; done += batch {
 		var cases []*txsim.Case
@@ -44,10 +44,10 @@ func main() {
 	}
 	rc := r.Fork(77)
 	var chains []*txsim.ChainCase
-	for i := 0; i < ctx.Scale(150, 10000); i++ {
+	for i := 0; i < ctx.Scale(150, 3500); i++ {
 		chains = append(chains, txsim.GenChain(rc))
 	}
-	for i := 0; i < ctx.Scale(60, 4000); i++ {
+	for i := 0; i < ctx.Scale(60, 1500); i++ {
 		chains = append(chains, txsim.GenChainPoS(rc))
 	}
 	txsim.RunChains(ctx, "C07", chains)
